@@ -48,6 +48,9 @@ Reading of the statements (model: `Model/RandomViews.lean`, which transcribes th
 * `rangeview2d_from_index_view`: `B(r0,r1) op= A(it0,it1)` through C05's `rowIters` (value + frame).
 * `index_view_from_range_view`, `mask_view_from_range_view`: `A(it) op= B(ranges)`, `A(mask) op= B(ranges)` with the offsets of
   C04's flat evaluator, which `C04.read_correct` identifies with the documented element.
+* `staged_index_write`, `staged_mask_write`: right-hand sides that Fastor evaluates into a temporary first (`P % Q`, `trans(C)`,
+  `P % Q + D`, also reading the parent): the temporary is computed from the memory before the statement, then the element-wise
+  path runs — value + frame as above.  (The n-D index view class has no evaluating overload: such statements do not compile.)
 * `filter_teval_rank3`: the multi-index members of a mask view (after the second `fix:` commit: lane `l` is the
   element at `(x,y,z+l)`; before it every lane held the element at `(x,y,z)`).
 
@@ -561,5 +564,40 @@ theorem mask_view_from_range_view (ap : α → α → α) (ofInt : Int → α) (
     simp [this]
 
 end compose
+
+/-! ## right-hand sides that are evaluated first -/
+
+section staged
+variable {α : Type} [Zero α] [Add α] [Sub α] [Mul α]
+
+/-- **`A(it) op= rhs`, `rhs` requiring evaluation** (`P % Q`, `trans(C)`, `P % Q + D`, also when `rhs` reads `A`): with
+    duplicate-free indices `A[it[j]]` ends as `op(A[it[j]], rhs_j)` where `rhs_j` is computed from the contents of `A`
+    BEFORE the statement; every other position keeps its value. -/
+theorem staged_index_write (vea : Bool) (ap : α → α → α) (ofInt : Int → α) (env : Nat → Nat → α) (it : Nat → Nat) (mask : Nat → Bool)
+    (rhsOf : (Nat → α) → Nat → α) (A : Nat → α) (n ex : Nat) (hn : n < 2 ^ 64) (hex : ex ≤ 64)
+    (hnd : ((List.range n).map it).Nodup) :
+    (∀ j, j < n → stagedScatter vea ap ofInt env it mask rhsOf n (2 ^ ex) A (it j) = ap (A (it j)) (rhsOf A j)) ∧
+    (∀ p, (∀ j, j < n → it j ≠ p) → stagedScatter vea ap ofInt env it mask rhsOf n (2 ^ ex) A p = A p) := by
+  unfold stagedScatter
+  have h := random_write vea ap ofInt (stagedEnv env 7 (rhsOf A)) it mask (.t 7) A n ex hn hex hnd
+  refine ⟨fun j hj => ?_, h.2⟩
+  rw [h.1 j hj]
+  simp [RandomViews.evalS, stagedEnv]
+
+/-- **`A(mask) op= rhs`, `rhs` requiring evaluation**: `op(A p, rhs_p)` with `rhs` computed from the old `A` where the mask
+    is true, `A p` everywhere else. -/
+theorem staged_mask_write (ap : α → α → α) (ofInt : Int → α) (env : Nat → Nat → α) (it : Nat → Nat) (mask : Nat → Bool)
+    (rhsOf : (Nat → α) → Nat → α) (A : Nat → α) (n p : Nat) :
+    stagedFilter ap ofInt env it mask rhsOf n A p = if p < n ∧ mask p = true then ap (A p) (rhsOf A p) else A p := by
+  unfold stagedFilter
+  rw [filter_write]
+  simp [RandomViews.evalS, stagedEnv]
+
+/-- non-vacuity: `a(mask) -= a % B` on a 2x2 parent that the product reads (values from the OLD parent) -/
+example : (List.range 4).map (stagedFilter (· - ·) (fun k => k) (fun _ _ => (0 : Int)) (fun i => i)
+    (fun i => [true, false, true, true].getD i false) (fun m => mmAt m (fun q => [1, 2, 3, 4].getD q 0) 2 2) 4 (fun p => (p : Int) + 1))
+    = [1 - (1 * 1 + 2 * 3), 2, 3 - (3 * 1 + 4 * 3), 4 - (3 * 2 + 4 * 4)] := by decide
+
+end staged
 
 end Fastor.C19
